@@ -2,6 +2,8 @@
 
 package dbsm
 
+import "sort"
+
 // M1: the MVCC + SSI reference model (DESIGN.md §6). Exact in this engine
 // because one goroutine issues every call, so "Commit returned before Begin
 // was called" is program order.
@@ -14,15 +16,18 @@ type mval struct {
 
 type Model struct {
 	commits []map[int]mval // write sets in commit order, by key index
+	byKey   map[int][]int  // key -> indices of the commits that wrote it (ascending)
 }
 
+// at: value of k in commits[0..snap).
 func (m *Model) at(k, snap int) (mval, bool) {
-	for i := snap - 1; i >= 0; i-- {
-		if v, ok := m.commits[i][k]; ok {
-			return v, true
-		}
+	idx := m.byKey[k]
+	// last index < snap
+	i := sort.SearchInts(idx, snap) - 1
+	if i < 0 {
+		return mval{}, false
 	}
-	return mval{}, false
+	return m.commits[idx[i]][k], true
 }
 
 // latest committed state of key k.
@@ -67,11 +72,10 @@ func (m *Model) conflict(t *MTxn) bool {
 	if !t.rw || len(t.buffer) == 0 {
 		return false
 	}
-	for j := t.snap; j < len(m.commits); j++ {
-		for k := range m.commits[j] {
-			if t.storeReads[k] {
-				return true
-			}
+	for k := range t.storeReads {
+		idx := m.byKey[k]
+		if n := len(idx); n > 0 && idx[n-1] >= t.snap {
+			return true
 		}
 	}
 	return false
@@ -83,4 +87,10 @@ func (m *Model) apply(t *MTxn) {
 		ws[k] = v
 	}
 	m.commits = append(m.commits, ws)
+	if m.byKey == nil {
+		m.byKey = map[int][]int{}
+	}
+	for k := range ws {
+		m.byKey[k] = append(m.byKey[k], len(m.commits)-1)
+	}
 }
